@@ -1,0 +1,18 @@
+//go:build verif
+// +build verif
+
+package chain
+
+import (
+	"github.com/LemoFoundationLtd/lemochain-core/chain/types"
+	"github.com/LemoFoundationLtd/lemochain-core/common/subscribe"
+)
+
+// Hook for the C20 verification harness in /verif (build tag "verif" only).
+
+// VerifC20SubscribeStable subscribes ch to the engine's stable-block feed, as runFeedTranspondLoop
+// does. A harness that replaces that loop (to make the hand-over to the event bus an event of its
+// explorer) receives the notifications here.
+func VerifC20SubscribeStable(bc *BlockChain, ch chan *types.Block) subscribe.Subscription {
+	return bc.engine.SubscribeStable(ch)
+}
